@@ -99,7 +99,7 @@ def run(ctx):
             if rnd.random() < 0.15:
                 cg = []
             recs.append({"name": f"r{rnd.randint(1, 4)}", "qlen": qlen, "qs": qs, "qe": rnd.randint(qs + 1, qlen), "m": rnd.randint(0, bl),
-                         "bl": bl, "mq": rnd.choice([0, 1, 30, 60]), "tp": rnd.choice(["P", "P", "S", "I", ""]), "cg": cg})
+                         "bl": bl, "mq": rnd.choice([0, 1, 30, 60, 255]), "tp": rnd.choice(["P", "P", "S", "I", ""]), "cg": cg})
         jobs.append((f"r{ri}", recs, rnd.random() < 0.5, rnd.choice(["plain", "bgzf"])))
     cases = pool_map(run_case, jobs, chunk=16)
     ctx.evaluations += len(cases)
